@@ -98,6 +98,9 @@ pub enum GenerateError {
     /// The mips view of a texture only exists as part of a load expression so the type has no name to export
     UnsupportedMipsIntermediate,
 
+    /// An untyped integer constant is outside the range of values that can be written as a literal
+    IntLiteralOutOfRange,
+
     /// Bind group (register space) index is outside the range of argument buffers we generate
     UnsupportedBindGroupIndex(u32),
 
@@ -1847,7 +1850,7 @@ fn generate_literal(
         ir::Constant::IntLiteral(v) if v >= 0 && v <= u64::MAX as i128 => {
             ast::Literal::IntUntyped(v as u64)
         }
-        ir::Constant::IntLiteral(_) => panic!("cannot represent {literal:?}"),
+        ir::Constant::IntLiteral(_) => return Err(GenerateError::IntLiteralOutOfRange),
         ir::Constant::Int32(v) if v < 0 => {
             return Ok(ast::Expression::UnaryOperation(
                 ast::UnaryOp::Minus,
